@@ -89,11 +89,11 @@ theorem slab_iff (b : Aabb3 K) (o d : V3 K) (i : Fin 3) (t : K) (hd : d.get i.va
 /-- one loop iteration narrows the parameter interval by exactly the slab of its axis; `none` ⇔ nothing is left -/
 theorem clipStep_spec (b : Aabb3 K) (o d : V3 K) (st : ClipState K) (i : Fin 3) (hb : b.mins.get i.val ≤ b.maxs.get i.val) :
     letI := fieldNum K sq
-    match clipStep b o d st i with
+    match clipStepC b o d st i with
     | some st' => (st.tmin ≤ st.tmax → st'.tmin ≤ st'.tmax) ∧
         ∀ t, (st'.tmin ≤ t ∧ t ≤ st'.tmax) ↔ ((st.tmin ≤ t ∧ t ≤ st.tmax) ∧ Slab b o d i t)
     | none => ∀ t, ¬ ((st.tmin ≤ t ∧ t ≤ st.tmax) ∧ Slab b o d i t) := by
-  simp only [clipStep]
+  simp only [clipStepC]
   by_cases hd : d.get i.val = 0
   · have hz : @neq K (fieldNum K sq) (d.get i.val) 0 = true := by simp [neq, hd]
     rw [if_pos hz]
@@ -192,7 +192,7 @@ theorem clipLoop_spec (b : Aabb3 K) (o d : V3 K) (hb : ValidBox b) :
   have hi2 : (@clipInit K (fieldNum K sq)).tmax = big K := by simp [clipInit, f64Max_eq]
   rw [hi1, hi2] at s0
   revert s0
-  cases @clipStep K (fieldNum K sq) b o d (@clipInit K (fieldNum K sq)) 0 with
+  cases @clipStepC K (fieldNum K sq) b o d (@clipInit K (fieldNum K sq)) 0 with
   | none =>
     intro s0 t ⟨ht, hm⟩
     exact s0 t ⟨ht, ((bmem_lineAt_iff b o d t).mp hm).1⟩
@@ -201,7 +201,7 @@ theorem clipLoop_spec (b : Aabb3 K) (o d : V3 K) (hb : ValidBox b) :
     simp only [Option.bind_some]
     have s1 := clipStep_spec sq b o d st0 1 (hb 1)
     revert s1
-    cases @clipStep K (fieldNum K sq) b o d st0 1 with
+    cases @clipStepC K (fieldNum K sq) b o d st0 1 with
     | none =>
       intro s1 t ⟨ht, hm⟩
       have hm' := (bmem_lineAt_iff b o d t).mp hm
@@ -211,7 +211,7 @@ theorem clipLoop_spec (b : Aabb3 K) (o d : V3 K) (hb : ValidBox b) :
       simp only [Option.bind_some]
       have s2 := clipStep_spec sq b o d st1 2 (hb 2)
       revert s2
-      cases @clipStep K (fieldNum K sq) b o d st1 2 with
+      cases @clipStepC K (fieldNum K sq) b o d st1 2 with
       | none =>
         intro s2 t ⟨ht, hm⟩
         have hm' := (bmem_lineAt_iff b o d t).mp hm
@@ -818,9 +818,9 @@ theorem clipUpdate_sides (b : Aabb3 K) (o d : V3 K) (st st' : ClipState K) (near
 
 theorem clipStep_sides (b : Aabb3 K) (o d : V3 K) (st st' : ClipState K) (i : Fin 3)
     (h1 : FaceHit b o d st.tmin st.nearSide (-big K)) (h2 : FaceHit b o d st.tmax st.farSide (big K))
-    (h : @clipStep K (fieldNum K sq) b o d st i = some st') :
+    (h : @clipStepC K (fieldNum K sq) b o d st i = some st') :
     FaceHit b o d st'.tmin st'.nearSide (-big K) ∧ FaceHit b o d st'.tmax st'.farSide (big K) := by
-  simp only [clipStep] at h
+  simp only [clipStepC] at h
   by_cases hz : @neq K (fieldNum K sq) (d.get i.val) 0 = true
   · rw [if_pos hz] at h
     split_ifs at h with hout
